@@ -46,11 +46,11 @@ func init() {
 		Desc:  "capacity boundaries of the mode encoders: content of exactly the capacity of version v is placed in version v, one character more in version v+1 (rejected, without leaking the producer goroutine, beyond version 40); stream checked as in QR-A",
 		Real:  []string{"qr.encodeNumeric", "qr.encodeAlphaNumeric", "qr.stringToAlphaIdx (goroutine)", "qr.encodeUnicode", "qr.addPaddingAndTerminator", "qr.findSmallestVersionInfo"},
 		Stubs: []string{oracle, "content class-constrained (digits / upper-case letters / bytes >= 0x80): the length is the quantity under test"},
-		Bound: "versions 1..5 x 4 levels x 3 modes x {capacity, capacity+1} and version 40 capacity+1 (rejection) quick; all 40 versions thorough",
+		Bound: "versions 1..5 x 4 levels x 3 modes x {capacity, capacity+1} and version 40 capacity+1 (rejection) quick; versions 1..8 thorough",
 		Configs: func(tier string, seed int64) []map[string]int {
 			top := 5
 			if tier == "thorough" {
-				top = 40
+				top = 8 // all 40 versions were tried: > 10 min for the family (7089 symbolic digits at 40-L)
 			}
 			var out []map[string]int
 			cls := map[int]int{1: 1, 2: 2, 4: 3}
